@@ -7,6 +7,8 @@ def run(prop, tier, seed):
         return R.command_property(prop, tier, seed)
     if prop in ("C01", "C14"):
         return R.heap_property(prop, tier, seed)
+    if prop == "C19":
+        return R.lib_property(prop, tier, seed)
     if prop == "C20":
         return R.param_property(prop, tier, seed)
     raise SystemExit("unknown property %s" % prop)
